@@ -319,15 +319,22 @@ def suite_queue(ctx):
     for _ in range(ctx.n(400, 8000)):
         mtu = rng.choice([1, 2, 4, 4095])
         conn = QueueConnection(mtu=mtu)
+        q_in, q_out = conn.fromuserqueue, conn.touserqueue        # the peer keeps the two queue handles it was given
         acts, outs, dl, sent = [], [], [], []
         opened = False
+        pending, sure = [], True                                  # reference FIFO: frames the peer put while the connection was open, not yet delivered or flushed
+        oracle_fail = None
         for _ in range(rng.randrange(3, 16)):
             r = rng.random()
             if not opened and r < 0.5:
                 acts.append(('open',)); conn.open(); opened = True; outs.append('-'); continue
             if r < 0.35:
                 f = bytes(rng.randrange(256) for _ in range(rng.choice([0, 1, mtu, mtu + 1, 2 * mtu + 1])))
-                acts.append(('pp', f)); conn.fromuserqueue.put(f); sent.append(f); outs.append('-')
+                acts.append(('pp', f)); q_in.put(f); sent.append(f); outs.append('-')
+                if opened:
+                    pending.append(f)
+                else:
+                    sure = False                                  # a frame sent while closed: the property says nothing about it
             elif r < 0.70:
                 e = rng.random() < 0.5
                 acts.append(('get', e))
@@ -341,8 +348,12 @@ def suite_queue(ctx):
                     outs.append('timeout')
                 except RuntimeError:
                     outs.append('RuntimeError')
+                if sure and opened and oracle_fail is None:
+                    want = ('f:' + hexs(pending.pop(0)[:mtu])) if pending else ('timeout' if e else '-')
+                    if outs[-1] != want:
+                        oracle_fail = (len(acts), outs[-1], want)
             elif r < 0.78:
-                acts.append(('flush',)); conn.empty_rxqueue(); outs.append('-')
+                acts.append(('flush',)); conn.empty_rxqueue(); outs.append('-'); pending, sure = [], True
             elif r < 0.90:
                 p = bytes(rng.randrange(256) for _ in range(rng.choice([1, mtu, mtu + 2])))
                 acts.append(('send', p))
@@ -351,7 +362,7 @@ def suite_queue(ctx):
                 except RuntimeError:
                     outs.append('RuntimeError')
             elif opened:
-                acts.append(('close',)); conn.close(); opened = False; outs.append('-')
+                acts.append(('close',)); conn.close(); opened = False; outs.append('-'); pending, sure = [], True
             else:
                 acts.append(('get', True))
                 try:
@@ -359,11 +370,17 @@ def suite_queue(ctx):
                 except RuntimeError:
                     outs.append('RuntimeError')
         tx = []
-        while not conn.touserqueue.empty():
-            tx.append(conn.touserqueue.get())
+        while not q_out.empty():
+            tx.append(q_out.get())
         line = 'qconn mtu=%d acts=%s' % (mtu, ','.join(act_str(a) for a in acts))
         lines.append(line)
-        impl.append('%s || q=%d opened=%s del=%s tx=%s' % (','.join(outs), conn.fromuserqueue.qsize(), core.b01(conn.is_open()), frames_str(dl), frames_str(tx)))
+        impl.append('%s || q=%d opened=%s del=%s tx=%s' % (','.join(outs), q_in.qsize(), core.b01(conn.is_open()), frames_str(dl), frames_str(tx)))
+        if conn.fromuserqueue is not q_in or conn.touserqueue is not q_out:
+            s.fail({'site': 'QueueConnection', 'input': line, 'class': 'the queues handed to the peer were replaced', 'observed': 'fromuserqueue / touserqueue is a new object',
+                    'required': 'frames the peer puts into the queue it was given are delivered'})
+        if oracle_fail is not None:
+            s.fail({'site': 'QueueConnection', 'input': line, 'class': 'not delivered exactly once, in order', 'observed': 'action %d gave %s' % (oracle_fail[0], oracle_fail[1]),
+                    'required': oracle_fail[2]})
         cut = [x[:mtu] for x in sent]
         i, ok = 0, True
         for f in dl:
